@@ -4,33 +4,83 @@ Helper lemmas for C15 (model: `Qx/Model/C15Ice.lean`, property theorems: `Qx/Pro
 -/
 namespace Qx.C15
 
-/-- the two log-only outputs an unauthenticated datagram may cause -/
+/-- the log-only outputs an unauthenticated datagram may cause -/
 def isIntegrityWarning : Out → Bool
   | .warnBadMi => true
   | .warnNoMi => true
+  | .warnBadFp => true
+  | .warnTruncAttr => true
   | _ => false
 
-/-- A STUN datagram whose MESSAGE-INTEGRITY is not the valid one for its class (absent, wrong key, other password,
-truncated) is dropped: the state is returned unchanged and the only possible outputs are the two warnings. -/
+/-- the integrity status that passes `miCheck` is exactly the one under the key handed to `decode` -/
+theorem miCheck_ok (k : Bool) (st : MiSt) :
+    miCheck k st = .ok ↔ st = (if k then .validRemote else .validLocal) := by
+  cases k <;> cases st <;> simp [miCheck]
+
+/-- **The two walks together.**  If the pre-scan of handleDatagram finds a MESSAGE-INTEGRITY and `decode` returns success, then
+the attribute that protects the message by the RFC's rules (`protectingMi`: the first MESSAGE-INTEGRITY, not behind a
+FINGERPRINT) exists and is the one `decode` verified under its key. -/
+theorem accept_implies_protected (k : Bool) (attrs : List Attr)
+    (h1 : prescan attrs = true) (h2 : decodeWalk k false attrs = .ok) :
+    ∃ st, protectingMi attrs = some st ∧ miCheck k st = .ok := by
+  induction attrs with
+  | nil => simp [prescan] at h1
+  | cons a rest ih =>
+    cases a with
+    | mi st =>
+      refine ⟨st, rfl, ?_⟩
+      simp only [decodeWalk, Bool.false_eq_true, if_false] at h2
+      cases hc : miCheck k st <;> simp [hc] at h2 ⊢
+    | fingerprint g => simp [prescan] at h1
+    | overrun => simp [prescan] at h1
+    | other =>
+      simp only [prescan] at h1
+      simp only [decodeWalk] at h2
+      exact ih h1 h2
+
+/-- the pre-scan is exactly "some MESSAGE-INTEGRITY protects the message" -/
+theorem prescan_iff_protected (attrs : List Attr) : prescan attrs = true ↔ (protectingMi attrs).isSome = true := by
+  induction attrs with
+  | nil => simp [prescan, protectingMi]
+  | cons a rest ih => cases a <;> simp [prescan, protectingMi, ih]
+
+/-- the key handed to `decode` for a message of class `cls` accepts exactly `validFor cls` -/
+theorem key_for_class (cls : Cls) :
+    (if (cls == .response || cls == .error) then MiSt.validRemote else MiSt.validLocal) = validFor cls := by
+  cases cls <;> rfl
+
+/-- A STUN datagram without a valid protecting MESSAGE-INTEGRITY (none at all, only behind a FINGERPRINT, wrong key, other
+password, truncated) is dropped: the state is returned unchanged and the only possible outputs are warnings. -/
 theorem react_unauthenticated (s : St) (d : Datagram) (h : d.unauthenticated = true) :
-    (react s d).1 = s ∧ ∀ o ∈ (react s d).2, o = Out.warnBadMi ∨ o = Out.warnNoMi := by
+    (react s d).1 = s ∧ ∀ o ∈ (react s d).2, isIntegrityWarning o = true := by
   obtain ⟨src, kind⟩ := d
   cases kind with
   | nonStun p => simp [Datagram.unauthenticated] at h
   | stun m =>
-    obtain ⟨cls, method, txid, mi, uc, role, prio, user⟩ := m
-    cases cls <;> cases mi <;> simp [Datagram.unauthenticated, validFor] at h <;>
-      simp only [react] <;> (repeat' split) <;> simp_all [decodeMi]
+    simp only [Datagram.unauthenticated, bne_iff_ne, ne_eq] at h
+    simp only [react]
+    split
+    · simp
+    · split
+      · simp [isIntegrityWarning]
+      · rename_i hpre
+        split
+        · simp [isIntegrityWarning]
+        · simp [isIntegrityWarning]
+        · simp [isIntegrityWarning]
+        · simp
+        · rename_i hdec
+          exfalso
+          have hpre' : prescan m.attrs = true := by simpa using hpre
+          obtain ⟨st, hp, hc⟩ := accept_implies_protected _ m.attrs hpre' hdec
+          rw [miCheck_ok, key_for_class] at hc
+          exact h (by rw [hp, hc])
 
 /-- one unauthenticated operation: state unchanged, outputs are only integrity warnings -/
 theorem step_unauthenticated (s : St) (op : Op) (h : op.unauthenticated = true) :
     (step s op).1 = s ∧ ∀ o ∈ (step s op).2, isIntegrityWarning o = true := by
   cases op with
-  | dgram d =>
-    have h1 := react_unauthenticated s d h
-    refine ⟨h1.1, ?_⟩
-    intro o ho
-    rcases h1.2 o ho with h2 | h2 <;> rw [h2] <;> rfl
+  | dgram d => exact react_unauthenticated s d h
   | _ => simp [Op.unauthenticated] at h
 
 theorem filter_eq_nil_of_all_warn (l : List Out) (h : ∀ o ∈ l, isIntegrityWarning o = true) :
